@@ -190,6 +190,14 @@ def load_template_contract(reg):
             cache = it.new_dict(entries)
             it.global_overrides = {("sasmodels.generate", "_template_cache"): cache}
             f = it.get_func("sasmodels.generate", "load_template")
+            # any other module-level state the function declares 'global' stands for an arbitrary history:
+            # the result may only depend on the per-file cache entry and the file itself
+            import ast as _ast
+            for node in _ast.walk(f.node):
+                if isinstance(node, _ast.Global):
+                    for gname in node.names:
+                        if gname != "_template_cache":
+                            it.global_overrides[("sasmodels.generate", gname)] = Sym(z3.Real("history!" + gname))
             out = it.call(f, ["kernel_iq.c"])
             text = out[0] if isinstance(out, tuple) else out.items[0]
             rpath = out[1] if isinstance(out, tuple) else out.items[1]
@@ -239,12 +247,26 @@ def replay_load_template():
         os.utime(p, (1003, 1003))
         b = generate.load_template("verif_template.c")[0]
         c = generate.load_template("verif_template.c")[0]
+        # two templates edited one after the other, reloaded in the opposite order
+        p2 = os.path.join(d, "verif_template2.c")
+        open(p2, "w").write("A")
+        os.utime(p2, (1004, 1004))
+        generate.load_template("verif_template2.c")
+        open(p, "w").write("three")
+        os.utime(p, (1010, 1010))
+        open(p2, "w").write("B")
+        os.utime(p2, (1020, 1020))
+        e2 = generate.load_template("verif_template2.c")[0]
+        e1 = generate.load_template("verif_template.c")[0]
     finally:
         generate.DATA_PATH = old
         generate._template_cache.pop("verif_template.c", None)
+        generate._template_cache.pop("verif_template2.c", None)
         shutil.rmtree(d, ignore_errors=True)
-    return (a, b, c) != ("one", "two", "two"), {"call": "load_template before/after an edit with a later mtime",
-                                                "real": [a, b, c], "spec": ["one", "two", "two"]}
+    got = (a, b, c, e2, e1)
+    want = ("one", "two", "two", "B", "three")
+    return got != want, {"call": "load_template: one file before/after an edit; then two files edited in turn and reloaded "
+                                 "in the opposite order", "real": list(got), "spec": list(want)}
 
 
 # --------------------------------------------------------------------------
